@@ -15,6 +15,18 @@ pub struct StringBlock {
 impl StringBlock {
     /// Parse a string block from a reader
     pub fn parse<R: Read + Seek>(reader: &mut R, offset: u64, size: u32) -> Result<Self> {
+        // The size comes from the file header: make sure the block lies inside the
+        // stream before allocating a buffer for it
+        let stream_len = reader.seek(SeekFrom::End(0))?;
+        if offset
+            .checked_add(size as u64)
+            .is_none_or(|end| end > stream_len)
+        {
+            return Err(Error::InvalidStringBlock(format!(
+                "String block of {size} bytes at offset {offset} exceeds the {stream_len} bytes available"
+            )));
+        }
+
         reader.seek(SeekFrom::Start(offset))?;
 
         let mut data = vec![0u8; size as usize];
